@@ -584,7 +584,7 @@ class Mp4Atom(ObjectWithFields):
         if size == 0:
             pos = src.tell()
             src.seek(0, 2)  # seek to end
-            size = src.tell() - pos
+            size = src.tell() - position
             src.seek(pos)
         elif size == 1:
             size_ext = src.read(8)
